@@ -6,11 +6,14 @@ import (
 	"encoding/json"
 	"fmt"
 	"os"
+	"runtime/debug"
 	"sort"
 	"time"
 
 	saoapp "github.com/SaoNetwork/sao/app"
 	"github.com/SaoNetwork/sao/verifrt"
+	"github.com/cosmos/cosmos-sdk/baseapp"
+	pruningtypes "github.com/cosmos/cosmos-sdk/pruning/types"
 	"github.com/cosmos/cosmos-sdk/simapp"
 	storetypes "github.com/cosmos/cosmos-sdk/store/types"
 	sdk "github.com/cosmos/cosmos-sdk/types"
@@ -21,6 +24,8 @@ import (
 	tmproto "github.com/tendermint/tendermint/proto/tendermint/types"
 	dbm "github.com/tendermint/tm-db"
 )
+
+type tmHeader = tmproto.Header
 
 const ChainID = "sao-sim-1"
 const Denom = "sao"
@@ -57,6 +62,7 @@ type PanicInfo struct {
 	Stack string
 	Fuel  bool
 	Site  string
+	Full  string
 }
 
 // Replica is one node: an App over its own DB.
@@ -94,7 +100,8 @@ func (r *Replica) Close() {
 
 // boot (re)creates the App object over the replica's DB: a process start.
 func (r *Replica) boot() {
-	a := saoapp.New(log.NewNopLogger(), r.DB, nil, true, map[int64]bool{}, r.home, 0, encCfg, simapp.EmptyAppOptions{})
+	a := saoapp.New(log.NewNopLogger(), r.DB, nil, true, map[int64]bool{}, r.home, 0, encCfg, simapp.EmptyAppOptions{},
+		baseapp.SetPruning(pruningtypes.NewCustomPruningOptions(3, 17)))
 	r.App = a.(*saoapp.App)
 	cms := r.App.CommitMultiStore()
 	for _, n := range watchedStores {
@@ -133,7 +140,7 @@ func (r *Replica) guarded(call string, f func()) (pi *PanicInfo) {
 			r.MaxTicks = d
 		}
 		if e := recover(); e != nil {
-			pi = &PanicInfo{Call: call, Value: fmt.Sprint(e), Stack: repoFrames()}
+			pi = &PanicInfo{Call: call, Value: fmt.Sprint(e), Stack: repoFrames(), Full: string(debug.Stack())}
 			if fe, ok := e.(verifrt.FuelExhausted); ok {
 				pi.Fuel = true
 				pi.Site = fe.Site
